@@ -51,6 +51,7 @@ class Ctx:
         self.extra = {}
         self.t0 = time.time()
         self.cur_rule = None
+        self.floor_failures = []
 
     # ------------------------------------------------------------------
     def rule(self, rid, text):
@@ -68,8 +69,12 @@ class Ctx:
         """Fail closed when a rule found fewer instances than confirmed by hand."""
         got = self.instances.get(rule, 0)
         if got < n:
-            raise AnalysisError('rule %s matched %d %s, floor is %d (anchor drift: a rule '
-                                'matching nothing would pass vacuously)' % (rule, got, what, n))
+            # recorded, and turned into exit 2 by the driver unless a violation was found
+            # (an edit that removes instances usually also breaks an obligation: the
+            # violation is the more specific verdict)
+            self.floor_failures.append('rule %s matched %d %s, floor is %d (anchor drift: a '
+                                       'rule matching nothing would pass vacuously)'
+                                       % (rule, got, what, n))
 
     def require(self, cond, msg):
         if not cond:
@@ -101,8 +106,9 @@ def finish(ctx, level_text):
         hit = [k for k in known if k.get('rule') == o.rule and k.get('construct') == o.construct]
         (tolerated if hit else new).append(o)
 
-    os.makedirs(os.path.join(VERIF, 'reports'), exist_ok=True)
-    os.makedirs(os.path.join(VERIF, 'evidence'), exist_ok=True)
+    out_base = os.environ.get('NVSTAT_OUT') or VERIF     # selftest variants write elsewhere
+    os.makedirs(os.path.join(out_base, 'reports'), exist_ok=True)
+    os.makedirs(os.path.join(out_base, 'evidence'), exist_ok=True)
 
     out_lines = []
     for o in tolerated:
@@ -112,7 +118,7 @@ def finish(ctx, level_text):
     for o in new:
         rp = os.path.join('reports', '%s.%s.%s.json' % (ctx.prop, _slug(o.rule),
                                                          _slug(o.construct)))
-        with open(os.path.join(VERIF, rp), 'w') as fh:
+        with open(os.path.join(out_base, rp), 'w') as fh:
             json.dump({'property': ctx.prop, 'rule': o.rule, 'rule_text': ctx.rules.get(o.rule),
                        'construct': o.construct, 'where': o.where, 'what': o.what,
                        'detail': o.detail, 'source_digest': ctx.program.digest,
@@ -168,7 +174,7 @@ def finish(ctx, level_text):
         'wall_s': round(time.time() - ctx.t0, 3),
         'violations': len(new),
     }
-    with open(os.path.join(VERIF, 'evidence', ctx.prop + '.json'), 'w') as fh:
+    with open(os.path.join(out_base, 'evidence', ctx.prop + '.json'), 'w') as fh:
         json.dump(ev, fh, indent=1, default=str)
 
     for ln in out_lines:
